@@ -142,7 +142,15 @@ def rule_b(ctx: Ctx) -> None:
         ctx.ob(rule, 'the saved context holds copies (not aliases) of both maps', f.loc(c), ok,
                '' if ok else 'the live dict objects are stored: the later update would also change the snapshot', key='set_xmlns_context|snapshot-by-value')
         # push precedes the update on the same path
+        # the merge: update(xmlns), or a loop over xmlns that stores each binding
         ups = [m for m, cc in call_nodes(g, lambda cc: text(cc.func) == 'self.namespaces.update' and text(cc.args[0]) == 'xmlns')]
+        stacked = [t for t, lab in guards(ctx, f, n) if lab == 'T' and 'stacked' in t]
+        for m in g.nodes:
+            if m.kind == 'stmt' and isinstance(m.ast, ast.Assign) and isinstance(m.ast.targets[0], ast.Subscript) \
+                    and text(m.ast.targets[0].value) == 'self.namespaces':
+                gs = guards(ctx, f, m)
+                if any(t.startswith('for ') and t.endswith(' in xmlns') and lab == 'T' for t, lab in gs) and all((t, 'T') in gs for t in stacked):
+                    ups.append(m)
         snap_nodes = [d for d in (rd[n].get(arg.id, set()) if isinstance(arg, ast.Name) else {n})]
         dom = g.dominators(kinds='nTF')
         ok = bool(ups) and all(all(s in dom[u] for s in snap_nodes) for u in ups)
@@ -322,4 +330,56 @@ def rule_e(ctx: Ctx) -> None:
                 '** operands, ChainMap) and the operand that wins a collision must be the one derived from `xmlns`.')
 
 
-RULES = [rule_a, rule_b, rule_c, rule_d, rule_e]
+def rule_f(ctx: Ctx) -> None:
+    """Inverse consistency: `_reverse[uri]` names a prefix that is bound to `uri`.  Binding a prefix that may already be bound to
+    another namespace must first take the old namespace's reverse entry away from it (or move it to another prefix of that
+    namespace) - otherwise names of the old namespace are still mapped to the prefix, which now means something else."""
+    rule = 'C17.f'
+    c = ctx.idx.cls(NM)
+    n = 0
+    for m in [m for q, m in ctx.idx.functions.items() if m.cls is not None and c in m.cls.mro() and not isinstance(m.node, ast.Lambda)]:
+        if m.name == '__init__':
+            continue
+        g = cfg_of(ctx, m)
+        dom = None
+        for node in g.nodes:
+            if not (node.kind == 'stmt' and isinstance(node.ast, ast.Assign) and isinstance(node.ast.targets[0], ast.Subscript)
+                    and text(node.ast.targets[0].value) == 'self.namespaces'):
+                continue
+            key = node.ast.targets[0].slice
+            if isinstance(key, ast.Constant):
+                kt = repr(key.value)
+            else:
+                kt = text(key)
+            gs = guards(ctx, m, node)
+            # cannot rebind: the store is behind "not bound yet", or at the exit of the renaming loop `while <key> in self.namespaces`
+            fresh = any((t in (f'{kt} not in self.namespaces',) and lab == 'T') or (t in (f'{kt} in self.namespaces',) and lab == 'F') for t, lab in gs)
+            n += 1
+            if fresh:
+                ctx.ob(rule, f'{m.name}: `{text(node.ast)[:40]}` binds a prefix that is not bound yet', m.loc(node.ast), True, '', key=f'{m.name}|bind|{kt}|fresh', nontrivial=False)
+                continue
+            dom = dom or g.dominators(kinds='nTF')
+            un = [x for x, cc in call_nodes(g, lambda cc: text(cc.func) == 'self._unbind_prefix' and cc.args and text(cc.args[0]) == kt)]
+            ok = any(u in dom[node] for u in un)
+            ctx.ob(rule, f'{m.name}: `{text(node.ast)[:40]}` may rebind a prefix: the reverse entry of its old namespace is released first', m.loc(node.ast), ok,
+                   '' if ok else f'no self._unbind_prefix({kt}, …) dominates the store: after <p:root xmlns:p="urn:1" xmlns:q="urn:1"><p:a xmlns:p="urn:2"><q:b/> '
+                   'the element {urn:1}b is decoded under the key `p:b`, which the data\'s own declarations resolve to {urn:2}b', key=f'{m.name}|bind|{kt}|unbind-first')
+        for node, cc in call_nodes(g, lambda cc: text(cc.func) == 'self.namespaces.update'):
+            gs = guards(ctx, m, node)
+            prior_clear = any(text(x.func) == 'self.namespaces.clear' for st in walk_no_nested(m.node) for x in calls(st)
+                              if getattr(st, 'lineno', 0) < node.lineno and getattr(st, 'lineno', 0) >= node.lineno - 2)
+            n += 1
+            ctx.ob(rule, f'{m.name}: `{text(cc)[:40]}` replaces the whole map (restore after clear) - bulk updates never rebind', m.loc(cc), prior_clear,
+                   '' if prior_clear else 'a bulk update can rebind prefixes without releasing the reverse entries of their old namespaces',
+                   key=f'{m.name}|bulk|{text(cc)[:40]}')
+    ctx.floor(rule, 'prefix binding sites in the namespace mappers', n, 4)
+    # the release itself: only if the reverse entry points to this prefix; moved to another prefix of the old namespace when there is one
+    u = c.methods.get('_unbind_prefix')
+    ok = u is not None and 'self._reverse' in text(u.node) and any(isinstance(x, ast.Delete) and 'self._reverse' in text(x) for x in ast.walk(u.node))
+    ctx.ob(rule, 'NamespaceMapper._unbind_prefix deletes (or re-targets) the reverse entry of the old namespace', u.loc() if u else f'{c.module.relpath}:{c.node.lineno}',
+           ok, '', key='_unbind_prefix|deletes')
+    ctx.explain('C17.f: every store `self.namespaces[k] = …` in the mappers is either behind a not-bound-yet test or dominated by '
+                'self._unbind_prefix(k, …); bulk updates only restore a snapshot into the cleared map.')
+
+
+RULES = [rule_a, rule_b, rule_c, rule_d, rule_e, rule_f]
